@@ -26,7 +26,17 @@ type pkgInfo struct {
 	consts map[string]constant.Value // per file-set, first definition wins inside a file
 }
 
+// softFatal: while set, fatal(..) unwinds to the recover in main instead of exiting, so that a rejection in
+// one generated file (ApiGo.lean) does not take the independent files generated after it with it; the exit
+// status is 2 all the same.
+type fatalErr string
+
+var softFatal bool
+
 func fatal(f string, a ...interface{}) {
+	if softFatal {
+		panic(fatalErr(fmt.Sprintf(f, a...)))
+	}
 	fmt.Fprintf(os.Stderr, "extract: "+f+"\n", a...)
 	os.Exit(2)
 }
@@ -239,7 +249,7 @@ func main() {
 		fatal("%v", err)
 	}
 	// delete stale generated files first
-	for _, n := range []string{"Tables.lean", "Facts.lean", "Switch.lean", "Funcs.lean", "MatrixGo.lean"} {
+	for _, n := range []string{"Tables.lean", "Facts.lean", "Switch.lean", "Funcs.lean", "MatrixGo.lean", "ApiGo.lean"} {
 		os.Remove(filepath.Join(out, n))
 	}
 
@@ -505,12 +515,53 @@ func main() {
 		fatal("%v", err)
 	}
 
-	// ---------- Funcs.lean ----------
-	// the small pure scalar functions, translated statement by statement (funcs.go)
 	tinfo := map[string]tableInfo{}
 	for _, sp := range specs {
 		tinfo[sp.name] = tableInfo{dims: sp.dims, bytesPer: sp.bytesPer}
 	}
+
+	// ---------- ApiGo.lean ----------
+	// the argument-validation helpers of reedsolomon.go, imperative mode over shard SHAPES (imper.go: shape mode).
+	// The file imports nothing and is translated on its own, function by function: a function that is rejected
+	// (and the listed functions that call it) is left out of ApiGo.lean and reported, the exit status is 2 at the
+	// end, after Funcs.lean / MatrixGo.lean have been written; a rejection there happens after ApiGo.lean has
+	// been written.
+	alist := []fspec{
+		{file: "reedsolomon.go", name: "shardSize", lean: "shardSize", imp: true, shape: true, group: "ApiGo"},
+		{file: "reedsolomon.go", name: "checkShards", lean: "checkShards", imp: true, shape: true, group: "ApiGo"},
+		// the size computation of Split (prefix mode): the values of perShard and needTotal
+		{file: "reedsolomon.go", recv: "reedSolomon", name: "Split", lean: "reedSolomon_Split_sizes", imp: true, shape: true, group: "ApiGo", upto: []string{"perShard", "needTotal"}},
+		{file: "leopard8.go", recv: "leopardFF8", name: "Split", lean: "leopardFF8_Split_sizes", imp: true, shape: true, group: "ApiGo", upto: []string{"perShard", "needTotal"}},
+		{file: "leopard.go", recv: "leopardFF16", name: "Split", lean: "leopardFF16_Split_sizes", imp: true, shape: true, group: "ApiGo", upto: []string{"perShard", "needTotal"}},
+	}
+	apiErr := ""
+	func() {
+		softFatal = true
+		defer func() {
+			softFatal = false
+			if r := recover(); r != nil {
+				fe, ok := r.(fatalErr)
+				if !ok {
+					panic(r)
+				}
+				apiErr = string(fe)
+			}
+		}()
+		atext := genFuncs(fset, files, need, tinfo, alist)["ApiGo"]
+		if err := os.WriteFile(filepath.Join(out, "ApiGo.lean"), []byte(atext), 0o644); err != nil {
+			fatal("%v", err)
+		}
+	}()
+	if apiErr != "" {
+		fmt.Fprintf(os.Stderr, "extract: ApiGo.lean not generated: %s\n", apiErr)
+	}
+	for _, sk := range skippedFuncs {
+		fmt.Fprintf(os.Stderr, "extract: ApiGo.lean: %s not generated: %s\n", sk[0], sk[1])
+		apiErr = "functions left out"
+	}
+
+	// ---------- Funcs.lean ----------
+	// the small pure scalar functions, translated statement by statement (funcs.go)
 	flist := []fspec{
 		{file: "galois.go", name: "galAdd", lean: "galAdd"},
 		{file: "galois.go", name: "galMultiply", lean: "galMultiply"},
@@ -550,5 +601,8 @@ func main() {
 	}
 	if err := os.WriteFile(filepath.Join(out, "MatrixGo.lean"), []byte(ftexts["MatrixGo"]), 0o644); err != nil {
 		fatal("%v", err)
+	}
+	if apiErr != "" {
+		os.Exit(2)
 	}
 }
